@@ -27,14 +27,15 @@ func init() {
 }
 
 type c12Scenario struct {
-	Kind    string  `json:"kind"` // handler | actor
-	Cap     int     `json:"cap"`
-	Default bool    `json:"default_handler,omitempty"`
-	Tree    []int   `json:"tree,omitempty"` // parent index of actor i (actor 0 is the root, parent -1)
-	Senders [][]int `json:"senders"`        // per sender: target mailbox index of each item
-	Yields  int     `json:"yields_in_work"`
-	Early   bool    `json:"close_while_senders_active"`
-	EarlyD  int     `json:"close_delay_yields,omitempty"`
+	Kind     string  `json:"kind"` // handler | actor
+	Cap      int     `json:"cap"`
+	Default  bool    `json:"default_handler,omitempty"`
+	Tree     []int   `json:"tree,omitempty"` // parent index of actor i (actor 0 is the root, parent -1)
+	Senders  [][]int `json:"senders"`        // per sender: target mailbox index of each item
+	Yields   int     `json:"yields_in_work"`
+	AskEvery int     `json:"every_nth_message_is_an_unawaited_ask,omitempty"`
+	Early    bool    `json:"close_while_senders_active"`
+	EarlyD   int     `json:"close_delay_yields,omitempty"`
 
 	probes    map[string]int
 	h         *Hist
@@ -97,6 +98,9 @@ func genC12(t *simrt.Tape, tier string) Scenario {
 		sc.Senders = append(sc.Senders, it)
 	}
 	sc.Yields = t.Choose(3)
+	if sc.Kind == "actor" && t.Bool(1, 3) {
+		sc.AskEvery = 2 + t.Choose(2)
+	}
 	if t.Bool(1, 3) {
 		// Close while senders are still active / a backlog is buffered: everything whose Post/Send
 		// returned before Close was invoked must still be processed exactly once
@@ -128,7 +132,7 @@ func (sc *c12Scenario) Run(s *simrt.Sim) {
 	var submit func(name string, it *c12Item)
 	var closeAll func()
 	var hd *fpgo.HandlerDef
-	var actors []*fpgo.ActorDef[int]
+	var actors []*fpgo.ActorDef[interface{}]
 	if sc.Kind == "handler" {
 		if sc.Default {
 			// the library's default Handler: the package's init functions are re-run inside this
@@ -152,11 +156,20 @@ func (sc *c12Scenario) Run(s *simrt.Sim) {
 		}
 		closeAll = func() { hd.Close() }
 	} else {
-		index := map[*fpgo.ActorDef[int]]int{}
-		effect := func(self *fpgo.ActorDef[int], msg int) {
+		index := map[*fpgo.ActorDef[interface{}]]int{}
+		effect := func(self *fpgo.ActorDef[interface{}], in interface{}) {
 			me, ok := index[self]
 			if !ok {
 				me = -1
+			}
+			msg := -1
+			switch m := in.(type) {
+			case int:
+				msg = m
+			case *fpgo.AskDef[int, int]:
+				// a question submitted through the Ask API is an ordinary message of its sender
+				msg = m.Message
+				defer m.Reply(msg)
 			}
 			if msg >= 0 && msg < len(sc.items) {
 				work(sc.items[msg], me)
@@ -164,16 +177,16 @@ func (sc *c12Scenario) Run(s *simrt.Sim) {
 		}
 		for i, p := range sc.Tree {
 			s.Sleep(time.Nanosecond) // distinct time.Now() ids
-			var a *fpgo.ActorDef[int]
+			var a *fpgo.ActorDef[interface{}]
 			switch {
 			case p < 0 && sc.Cap == 0 && sc.Yields == 1:
-				a = (&fpgo.ActorDef[int]{}).New(effect) // method-style constructor
+				a = (&fpgo.ActorDef[interface{}]{}).New(effect) // method-style constructor
 			case p < 0 && sc.Cap == 0:
 				a = fpgo.ActorNewGenerics(effect)
 			case p < 0 && sc.Yields == 1:
-				a = (&fpgo.ActorDef[int]{}).NewByOptions(effect, make(chan int, sc.Cap), map[string]interface{}{})
+				a = (&fpgo.ActorDef[interface{}]{}).NewByOptions(effect, make(chan interface{}, sc.Cap), map[string]interface{}{})
 			case p < 0:
-				a = fpgo.ActorNewByOptionsGenerics(effect, make(chan int, sc.Cap), map[string]interface{}{})
+				a = fpgo.ActorNewByOptionsGenerics(effect, make(chan interface{}, sc.Cap), map[string]interface{}{})
 			default:
 				a = actors[p].Spawn(effect)
 			}
@@ -203,6 +216,15 @@ func (sc *c12Scenario) Run(s *simrt.Sim) {
 		}
 		submit = func(name string, it *c12Item) {
 			a := actors[it.mailbox]
+			if sc.AskEvery > 0 && it.id%sc.AskEvery == 0 && !it.late {
+				// submitted as a question whose answer the sender does not wait for
+				it.sub = h.Do(name, "AskChannel", it.id, func() (interface{}, error) {
+					fpgo.AskNewGenerics[int, int](it.id).AskChannel(a)
+					return nil, nil
+				})
+				sc.probes["message-submitted-through-AskChannel"]++
+				return
+			}
 			it.sub = h.Do(name, "Send", it.id, func() (interface{}, error) { a.Send(it.id); return nil, nil })
 		}
 		closeAll = func() {
@@ -288,7 +310,7 @@ func (sc *c12Scenario) Run(s *simrt.Sim) {
 		// Spawn on a closed parent: the child is independent and not registered
 		s.Sleep(time.Nanosecond)
 		orphanGot := 0
-		child := actors[0].Spawn(func(_ *fpgo.ActorDef[int], m int) { orphanGot += m })
+		child := actors[0].Spawn(func(_ *fpgo.ActorDef[interface{}], m interface{}) { orphanGot += m.(int) })
 		if child.GetParent() != nil || actors[0].GetChild(child.GetID()) != nil {
 			sc.extra = append(sc.extra, Violation{Clause: "registry", Fingerprint: "spawn-on-closed-parent", Detail: "Spawn on a closed parent registered the child"})
 		}
